@@ -78,3 +78,11 @@ Example C09_type_example :
   parse_typeR [tkz "ARRAY"%string 0 5; tkz "<"%string 5 1; one; tkz ">"%string 7 1; tkz K_eof 8 0]%Z
   = Some (RArray 0 7 (RBad 6 7 [one]), [6%Z]).
 Proof. vm_compute. reflexivity. Qed.
+
+(* ---- the statement family (Parse/StmtModel.v, tied to ParseDDL / ParseStatement / the list entry points): parseDDL records no error exactly
+   when its success path returned a node -- which is then not a Bad node -- and otherwise exactly one error together with one BadDDL ---- *)
+From Verif Require Import Parse.StmtModel Parse.StmtProofs.
+Theorem C09_family_error_iff_bad_node : forall ts d r e, sp_ddl ts = Some (d, r, e) ->
+  (e = 0 /\ ddl_body ts = Some (Ok (d, r)) /\ exists ty fs, d = DNode ty fs) \/ (e = 1 /\ exists p q sk, d = DBad false p q sk).
+Proof. exact sp_ddl_errors. Qed.
+Print Assumptions C09_family_error_iff_bad_node.
